@@ -112,7 +112,7 @@ CHECKS = {
              "and distinct positions get distinct keys (free algebra of split/fold_in); the STAGING CACHES of seed (stage keyed on function / tree / avals incl. weak types / keyword names / statics; the flat-sampler slot) are modelled: a cache whose key refines what staging depends on never changes the result of any call in any history, the coded keys do refine it, eager / jit / vmap / jit(vmap) present the same call to the caches (assumption: tracers keep weak types, stated); witnesses for keys that forget keyword names, weak types or avals. The purity claim itself lives in the runtime and is "
              "carried by the correspondence: generated seeded programs run fresh / after unseeded sampling / after other seeded programs / "
              "under jit / vmap over keys / jit(vmap), each compared bit-for-bit with the model's key paths evaluated by jax.random; call histories over long-lived samplers that differ only in keyword names / weak vs strong scalars / shapes / static values, in several orders and modes, each result vs a fresh evaluation and vs the cache model's prediction of shared entries; argument kinds (reduced precision, narrow integers, pytrees); ADEV sites under seed.",
-        note=TB + "C06 (partial): absence of other hidden state in JAX/XLA/TFP cannot be exhibited by the model; 'distinct keys give distinct draws' rests on threefry.",
+        note=TB + "C06 (partial): absence of other hidden state in JAX/XLA/TFP cannot be exhibited by the model; 'distinct keys give distinct draws' rests on threefry. Sites nested at depth 1-3 inside re-bound primitives (checkpoint, custom_jvp): eager and jit must both refuse or both return equal key-dependent values.",
         technique="Lean 4 proof of the key-path model + differential correspondence over call histories and transformations",
         design="§3 C06"),
     "C07": dict(
@@ -174,7 +174,7 @@ CHECKS = {
              "deterministic JAX programs (indexing, reductions, dot/transpose, int/bool/complex intermediates, casts, cond, scan/fori) over scalar, "
              "array and pytree arguments: jvp_estimate / grad_estimate / estimate vs jax.jvp / jax.grad / f; JAX library functions that carry their own derivative rule or wrap a sub-jaxpr (jax.nn.relu / relu6 / softplus / softmax, logsumexp, jax.checkpoint, user custom_jvp and custom_vjp with non-standard rules, also inside cond / scan) - a repaired defect: every custom_jvp_call raised NotImplementedError; random straight-line programs vs the "
              "Lean interpreter; random programs of the richer language (mixed-output helpers, scans with mixed carries, conds, zero-tangent and integer inputs) built both as JAX functions and as driver terms: jvp_estimate vs the model, vs jax.jvp, and the proved witnesses replayed on the implementation.",
-        note=TB + "C15 (partial): the per-primitive JVP rules are assumed lawful (Prim.Lawful, checked against jax.jvp on every generated case); tangent shapes, complex values and dtype conversions are covered only by the corpus; three interpreter limits found with the model (multi-output cond branches, literal cond operands, integer outputs of jitted helpers) were repaired (c02ba82, 00a3509, 3a42c1e) and are hard checks now.",
+        note=TB + "C15 (partial): the per-primitive JVP rules are assumed lawful (Prim.Lawful, checked against jax.jvp on every generated case); tangent shapes, complex values and dtype conversions are covered only by the corpus; three interpreter limits found with the model (multi-output cond branches, literal cond operands, integer outputs of jitted helpers) were repaired (c02ba82, 00a3509, 3a42c1e) and are hard checks now. Array-valued symbolic-zero tangents (round/floor/sign/stop_gradient consumed by dot/transpose/slice, single-array results: shape, dtype, value vs jax.jvp) are part of the quick tier.",
         technique="Lean 4 proof of the interpreter skeleton + differential corpus against jax.jvp / jax.grad",
         design="§3 C15"),
     "C17": dict(
